@@ -6,6 +6,7 @@ import (
 	"go/token"
 	"go/types"
 	"regexp"
+	"strings"
 )
 
 // R-DEFVAL-BYTES-ESCAPE: finite case analysis of defval.marshalBytes over all
@@ -279,4 +280,91 @@ func classifyBytesEscape(ch int64, pieces []string) (bool, string) {
 		return true, "numeric escape of maximal width for this byte"
 	}
 	return false, "unrecognised emission"
+}
+
+// R-DEFVAL-ENUM-NUMBER: the GoTag form of an enum default is the number.
+// Marshal writes v.Enum(); Unmarshal has to return that very number. It may
+// not take the number from the enum value it looked up, because for
+// struct-tag-only messages the lookup yields a placeholder value that does not
+// know its number (Number() is 0).
+//
+// R-DEFVAL-BYTES-READER: marshalBytes writes protoc's C-escape language
+// (including \' and three-digit octal escapes); unmarshalBytes has to read it
+// with the text-format string decoder, which is the reader of that language.
+// Go's strconv.Unquote rejects \' inside a double-quoted literal.
+func (c *Ctx) ruleDefvalReaders(ruleEnum, ruleBytes string) {
+	R, P := c.R, c.P
+	R.Rule(ruleEnum, "defval.Unmarshal's GoTag enum branch returns ValueOfEnum of the number it parsed from the string, not of <looked-up value>.Number()", 1)
+	R.Rule(ruleBytes, "defval.unmarshalBytes decodes the quoted default with the text-format string decoder (internal/encoding/text.UnmarshalString), the reader of the escape language marshalBytes writes", 1)
+	if fi := c.need(ruleEnum, "internal/encoding/defval.Unmarshal"); fi != nil {
+		info := fi.Info()
+		n := 0
+		walkAll(fi.Decl.Body, func(x ast.Node) bool {
+			is, ok := x.(*ast.IfStmt)
+			if !ok || !strings.Contains(exprStr(is.Cond), "GoTag") {
+				return true
+			}
+			parsed := map[types.Object]bool{}
+			walk(is.Body, func(m ast.Node) bool {
+				switch y := m.(type) {
+				case *ast.AssignStmt:
+					if len(y.Rhs) == 1 && strings.Contains(exprStr(y.Rhs[0]), "strconv.Parse") {
+						if o := objOf(info, y.Lhs[0]); o != nil {
+							parsed[o] = true
+						}
+					}
+				case *ast.ReturnStmt:
+					if len(y.Results) == 0 {
+						return true
+					}
+					call, ok := unparen(y.Results[0]).(*ast.CallExpr)
+					if !ok || !strings.HasSuffix(exprStr(call.Fun), "ValueOfEnum") || len(call.Args) != 1 {
+						return true
+					}
+					n++
+					fromParsed, fromLookup := false, false
+					walk(call.Args[0], func(k ast.Node) bool {
+						if id, ok := k.(*ast.Ident); ok && parsed[info.Uses[id]] {
+							fromParsed = true
+						}
+						if se, ok := k.(*ast.SelectorExpr); ok && se.Sel.Name == "Number" {
+							fromLookup = true
+						}
+						return true
+					})
+					R.Check(fromParsed && !fromLookup, ruleEnum, fi.Key+" GoTag enum", P.Pos(y), "the parsed number", "the GoTag enum default returns `"+exprStr(call.Args[0])+"`: for a struct-tag-only message the looked-up enum value is a placeholder whose Number() is 0, so `def=2` yields Default().Enum() == 0")
+				}
+				return true
+			})
+			return true
+		})
+		if n == 0 {
+			R.Unk(ruleEnum, fi.Key, P.Pos(fi.Decl), "GoTag enum branch with a ValueOfEnum return not found")
+		}
+	}
+	if fi := c.need(ruleBytes, "internal/encoding/defval.unmarshalBytes"); fi != nil {
+		info := fi.Info()
+		viaText, other := false, ""
+		walkAll(fi.Decl.Body, func(x ast.Node) bool {
+			call, ok := x.(*ast.CallExpr)
+			if !ok {
+				return true
+			}
+			switch k := calleeKey(info, call); {
+			case k == "internal/encoding/text.UnmarshalString":
+				viaText = true
+			case strings.HasPrefix(k, "strconv.Unquote"):
+				other = k
+			}
+			return true
+		})
+		switch {
+		case viaText && other == "":
+			R.OK(ruleBytes, fi.Key, P.Pos(fi.Decl), "text.UnmarshalString")
+		case other != "":
+			R.Bad(ruleBytes, fi.Key, P.Pos(fi.Decl), "the bytes default is decoded with "+other+", Go's quoting rules: `\\'` (which marshalBytes writes for an apostrophe, as protoc does) is rejected inside a double-quoted literal, so a default containing 0x27 does not survive Marshal/Unmarshal or ToFileDescriptorProto/NewFile")
+		default:
+			R.Unk(ruleBytes, fi.Key, P.Pos(fi.Decl), "decoder of the quoted default not recognised")
+		}
+	}
 }
